@@ -145,12 +145,20 @@ def run_tests(scratch, w):
         return "build-timeout"
     if b.returncode != 0:
         return "no-compile"
+    # own process group: on a timeout the test binary (a grandchild) must die too, or it spins for ever
+    import signal
+    p = subprocess.Popen(["cargo", "test", "--offline", "--lib", "-q"], cwd=scratch, env=env, stdout=subprocess.PIPE,
+                         stderr=subprocess.STDOUT, text=True, start_new_session=True)
     try:
-        r = subprocess.run(["cargo", "test", "--offline", "--lib", "-q"], cwd=scratch, env=env, stdout=subprocess.PIPE,
-                           stderr=subprocess.STDOUT, text=True, timeout=180)
+        p.communicate(timeout=180)
     except subprocess.TimeoutExpired:
+        try:
+            os.killpg(p.pid, signal.SIGKILL)
+        except OSError:
+            pass
+        p.wait()
         return "test-timeout"
-    return "tests-pass" if r.returncode == 0 else "tests-fail"
+    return "tests-pass" if p.returncode == 0 else "tests-fail"
 
 
 def run_checks(scratch, w):
@@ -203,6 +211,7 @@ def main(argv):
     jobs, limit, files, out, stride, offset = 6, None, DEFAULT_FILES, os.path.join(VERIF, "sweep", "sweep.json"), 1, 0
     ops = None
     recheck = False
+    only_silent = False
     i = 0
     while i < len(argv):
         a = argv[i]
@@ -220,6 +229,8 @@ def main(argv):
             offset = int(argv[i + 1]); i += 2
         elif a == "--recheck":
             recheck = True; i += 1
+        elif a == "--only-silent":
+            only_silent = True; i += 1
         elif a == "--ops":
             ops = argv[i + 1].split(","); i += 2
         elif a == "--list":
@@ -246,7 +257,7 @@ def main(argv):
         todo = []
         for m in muts:
             d0 = done.get(m["id"])
-            if d0 and d0["status"] in ("tests-pass", "test-timeout"):
+            if d0 and d0["status"] in ("tests-pass", "test-timeout") and not (only_silent and d0.get("fired")):
                 m2 = dict(m, status=d0["status"], recheck=True)
                 todo.append(m2)
                 del done[m["id"]]
